@@ -53,7 +53,12 @@ def run(ctx):
             if tag not in ("-", "E"):
                 tagged += 1
                 try:
-                    d = values.render(values.abstract(get_tagged_field_default(f))).replace(" ", ",")
+                    dv = get_tagged_field_default(f)
+                    d = values.render(values.abstract(dv)).replace(" ", ",")
+                    if dataclasses.is_dataclass(dv) and type(dv) is not values.leaf_type(f.type):
+                        fails.append({"what": f"resolved default of tagged field {f.name} is an instance of "
+                                              f"{type(dv).__module__}.{type(dv).__qualname__}, not of the declared class",
+                                      "class": cl.keys[i], "field": f.name})
                 except Exception as e:  # noqa: BLE001
                     d = "ERR:" + type(e).__name__
                     fails.append({"what": "tagged field has no resolvable default", "class": cl.keys[i], "field": f.name})
@@ -70,7 +75,7 @@ def run(ctx):
         "samples": [cl.keys[0], replies[0][:200]],
     })
     for f in fails[:3]:
-        ctx.violation(f"{f['class']}: {f['what']}", dict(kind="c13", **f))
+        ctx.violation(f"{f['class']}: {f['what']}", {**f, "check": "c13"})
     if disagreements and not fails:
         ctx.broken.append(f"model of _introspect/_implicit_defaults disagrees with the code: {disagreements[0]}")
 
